@@ -135,6 +135,9 @@ func c07LinesGen(r *rand.Rand) c07LineDoc {
 	d.blocks = append(d.blocks, "inl")
 	fmt.Fprintf(&sb, "fl: [{a: 1}, {a: %d}]\n", r.IntN(9))
 	d.blocks = append(d.blocks, "fl")
+	// anchored sequences (block and flow) with aliases of them further down
+	fmt.Fprintf(&sb, "ahosts: &ahosts\n  - alpha\n  - %s\naflags: &aflags [fast, %s]\nuses:\n  h: *ahosts\n  f: *aflags\n", scal(), scal())
+	d.blocks = append(d.blocks, "ahosts", "aflags", "uses")
 	fmt.Fprintf(&sb, "tail: end%s\n", cm())
 	d.blocks = append(d.blocks, "tail")
 	d.text = sb.String()
@@ -183,7 +186,19 @@ func c07LineCase(w *mon.Worker, r *rand.Rand) mon.Result {
 	if r.IntN(3) == 0 {
 		return c07MultiDelete(d, r)
 	}
-	switch r.IntN(19) {
+	switch r.IntN(24) {
+	case 19:
+		// an element is appended and the appended element is deleted again: the document is what it was
+		u = upd{fmt.Sprintf(`.%s += ["zz_app"] | del(.%s[] | select(. == "zz_app"))`, seq, seq), nil}
+	case 20:
+		u = upd{fmt.Sprintf(`.%s += ["zz_a", "zz_b"] | del(.%s[%d]) | del(.%s[-1])`, seq, seq, d.seqLen[seq]+1, seq), nil}
+	case 21:
+		// taking away what is not there: nothing changes, the anchor of the sequence included
+		u = upd{fmt.Sprintf(`.%s -= ["zz_not_there"]`, []string{"ahosts", "aflags", seq}[r.IntN(3)]), nil}
+	case 22:
+		u = upd{`.ahosts -= ["alpha"]`, []string{"ahosts"}}
+	case 23:
+		u = upd{`.aflags -= ["fast"] | .ahosts += ["zz_n"]`, []string{"aflags", "ahosts"}}
 	case 15:
 		// a map of the document bound to a variable and edited THROUGH the variable before it is appended
 		u = upd{fmt.Sprintf(`.["%s"] as $t | .%s += [$t | .zz_t = 30]`, d.mapKeys[0], seq), []string{seq}}
